@@ -320,6 +320,19 @@ def writes_under_extent(P, rep, rule="G1"):
                           "a point outside the feature can be modified", key="%s|%s|noguard" % (rule, F.qn),
                           witness="a point outside the feature's footprint or depth range")
             continue
+        # the extent test is a statement about geometry: it must not consult the model lists
+        model_dep = []
+        for a, i in common:
+            c = info[a][1]
+            if c is None:
+                continue
+            for x in F.walk(c):
+                if x.get("k") == "MemberExpr" and ("Models::" in x.get("t", "") or x.get("n", "").endswith("_models")):
+                    model_dep.append((c, x))
+        for c, x in model_dep[:1]:
+            rep.violation(rule, "%s: every write is conditional on `%s`, which consults %s" % (F.qn, norm.render(P, c)[:70], x.get("n")), F.nloc(c), F.qn,
+                          norm.render(P, c)[:120], "whether the feature covers a point (and paints its tag) must not depend on which models it has",
+                          key="%s|%s|model-dependent" % (rule, F.qn), witness="a feature without models: its tag is not reported inside it")
         bad = [(w, cs - common) for w, cs in sets if cs - common]
         missing = [(w, common - cs) for w, cs in sets if common - cs]
         if missing:
@@ -339,6 +352,6 @@ def writes_under_extent(P, rep, rule="G1"):
                 rep.violation(rule, "%s: %d write(s) are additionally conditional on `%s`" % (F.qn, len(wl), c), F.nloc(wl[0]), F.qn,
                               norm.render(P, wl[0])[:100], "property kinds do not share one extent test: inside the feature some values are painted and others not",
                               key="%s|%s|extra|%s" % (rule, F.qn, c[:40]), witness="a point inside the feature where this condition is false")
-        if not missing and not extra_desc:
+        if not missing and not extra_desc and not model_dep:
             rep.ok(rule, "%s: %d writes, all under {%s}" % (F.qn.split("::")[-2], len(ws), "; ".join(desc)), F.loc, F.qn)
     rep.floor(rule, n_w, 36, "writes to the result vector in the 6 features")
